@@ -27,6 +27,8 @@ type Informer struct {
 	// real shared informer allow: the cache is updated first, listeners run later.
 	LagHandlers map[int]bool
 	lpending    map[int][]Notification
+	// pristine is the serialised form of every cached object as the informer stored it.
+	pristine map[string][]byte
 }
 
 // Notification is one pending call of a lagging listener.
@@ -84,6 +86,7 @@ func (i *Informer) Deliver() bool {
 	ev := i.pending[0]
 	i.pending = i.pending[1:]
 	i.Delivered++
+	defer i.refreshPristine(ev.Key)
 	switch ev.Type {
 	case Added:
 		if old, exists, _ := i.indexer.GetByKey(ev.Key); exists {
@@ -180,9 +183,49 @@ func (i *Informer) SyncFrom(objs []runtime.Object) {
 	for _, o := range objs {
 		c := RoundTrip(i.Resource, o)
 		_ = i.indexer.Add(c)
+		i.refreshPristine(ObjKey(c))
 		for _, h := range i.handlers {
 			h.OnAdd(c)
 		}
+	}
+}
+
+// MutatedKeys lists cached objects that no longer equal what the informer put into its cache:
+// somebody wrote into a shared cache object instead of a copy.
+func (i *Informer) MutatedKeys() []string {
+	var out []string
+	for _, k := range i.indexer.ListKeys() {
+		o, _, _ := i.indexer.GetByKey(k)
+		b, _ := json.Marshal(o)
+		if want, ok := i.pristine[k]; ok && string(want) != string(b) {
+			out = append(out, k)
+		}
+	}
+	sort.Strings(out)
+	return out
+}
+
+// refreshPristine re-records one key after the informer itself changed it.
+func (i *Informer) refreshPristine(key string) {
+	if i.pristine == nil {
+		i.pristine = map[string][]byte{}
+	}
+	o, exists, _ := i.indexer.GetByKey(key)
+	if !exists {
+		delete(i.pristine, key)
+		return
+	}
+	b, _ := json.Marshal(o)
+	i.pristine[key] = b
+}
+
+// notePristine records the serialised form of every cached object as delivered.
+func (i *Informer) notePristine() {
+	i.pristine = map[string][]byte{}
+	for _, k := range i.indexer.ListKeys() {
+		o, _, _ := i.indexer.GetByKey(k)
+		b, _ := json.Marshal(o)
+		i.pristine[k] = b
 	}
 }
 
@@ -223,6 +266,7 @@ type InformerSnapshot struct {
 	cache    []interface{}
 	pending  []Event
 	lpending map[int][]Notification
+	pristine map[string][]byte
 }
 
 // Snapshot captures the informer state (objects are shared, never mutated).
@@ -231,12 +275,20 @@ func (i *Informer) Snapshot() *InformerSnapshot {
 	for k, v := range i.lpending {
 		s.lpending[k] = append([]Notification(nil), v...)
 	}
+	s.pristine = map[string][]byte{}
+	for k, v := range i.pristine {
+		s.pristine[k] = v
+	}
 	return s
 }
 
 // Restore resets the informer to a snapshot without notifying handlers.
 func (i *Informer) Restore(s *InformerSnapshot) {
 	_ = i.indexer.Replace(s.cache, "")
+	i.pristine = map[string][]byte{}
+	for k, v := range s.pristine {
+		i.pristine[k] = v
+	}
 	i.pending = append([]Event(nil), s.pending...)
 	i.lpending = map[int][]Notification{}
 	for k, v := range s.lpending {
